@@ -194,6 +194,7 @@ pub const ADVERSARIAL_DOCS: &[&str] = &[
     " Foo]", " []()", " [](", " ![img](Foo)", " <Foo>", " <https://x.y>", " [Foo](<Bar>)", " * [Foo]", " > [Foo]", " # [Foo]",
     " | [a] | [b] |", " |---|---|", " - [ ] [Foo]", " ~~[Foo]~~", " [^1]", " [^1]: [Foo]", " `[Foo]`", " ``` [Foo]", " \\[Foo]",
     " [Foo] \u{1F600} [Bar]", " \u{1F600}[Foo]", " [\u{1F600}]", " [self]", " [super::x]", " [crate]", " [fn@foo]", " [Foo::]", " [::Foo]",
+    " [::alpha::Foo]", " [::zeta]", " [`::mid::T`] and [::b::x::y]", " [::B] [::a1::Foo]", " [text](::_a::Foo)", " [::alpha]: ::zeta::Bar",
     " [a::b::c::d]", " [Foo](Bar \"title\")", " &amp; [Foo]", " \"smart\" -- [Foo] ...", "[Foo]", "[Foo][]", " [Foo]:", " [ Foo ]",
 ];
 
